@@ -446,6 +446,12 @@ fn differs_only_in_line_structure(a: &str, b: &str) -> bool {
 /// symptom: it only applies when the two passes differ in line structure alone (line breaks / indentation);
 /// a second pass that changes spacing inside a line or any character is never covered by a finding.
 pub fn classify6(text: &str, cfg: &LuaFormatConfig) -> Option<&'static str> {
+    class6(text, cfg, true)
+}
+
+/// `for_failure = false`: the class an input belongs to irrespective of whether it fails (used to measure, per
+/// class, how many inputs are members and how many of them fail); the symptom restriction is not applied then.
+pub fn class6(text: &str, cfg: &LuaFormatConfig, for_failure: bool) -> Option<&'static str> {
     use emmylua_parser::{LuaKind, LuaParser, LuaSyntaxKind, LuaTokenKind, ParserConfig};
     let tree = LuaParser::parse(text, ParserConfig::with_level(level_of(cfg)));
     if tree.has_syntax_errors() {
@@ -454,7 +460,7 @@ pub fn classify6(text: &str, cfg: &LuaFormatConfig) -> Option<&'static str> {
     let src = SourceText { text, level: level_of(cfg) };
     let first = reformat_lua_code(&src, cfg);
     let second = reformat_lua_code(&SourceText { text: &first, level: level_of(cfg) }, cfg);
-    if first == second {
+    if first == second && for_failure {
         return None;
     }
     if tree.get_errors().iter().any(|e| e.kind == emmylua_parser::LuaParseErrorKind::DocError) {
@@ -522,48 +528,68 @@ pub fn classify6(text: &str, cfg: &LuaFormatConfig) -> Option<&'static str> {
             return Some("align-table-comments+table-field-with-trailing-comment");
         }
     }
-    if !differs_only_in_line_structure(&first, &second) {
+    if for_failure && !differs_only_in_line_structure(&first, &second) {
         return None;
     }
-    let mut multiline_token = false;
-    let mut multiline_seq = false;
+    // structural classes, split by construct kind (each kind is a separate finding, so a kind that is not
+    // known to fail suppresses nothing)
+    let (mut long_string, mut quoted_string, mut long_comment, mut other_token) = (false, false, false, false);
+    let (mut ml_table, mut ml_args, mut ml_params) = (false, false, false);
     for el in root.descendants_with_tokens() {
         match el {
             rowan::NodeOrToken::Token(t) => {
                 let k: LuaTokenKind = t.kind().into();
                 if !matches!(k, LuaTokenKind::TkEndOfLine | LuaTokenKind::TkWhitespace) && t.text().trim_end().contains('\n') {
-                    multiline_token = true;
+                    let in_comment = t.parent_ancestors().any(|a| a.kind() == LuaKind::Syntax(LuaSyntaxKind::Comment));
+                    match k {
+                        LuaTokenKind::TkLongString => long_string = true,
+                        LuaTokenKind::TkString => quoted_string = true,
+                        _ if in_comment => long_comment = true,
+                        _ => other_token = true,
+                    }
                 }
             }
             rowan::NodeOrToken::Node(n) => {
                 if let LuaKind::Syntax(k) = n.kind() {
-                    if matches!(k, LuaSyntaxKind::TableArrayExpr | LuaSyntaxKind::TableObjectExpr | LuaSyntaxKind::TableEmptyExpr | LuaSyntaxKind::CallArgList | LuaSyntaxKind::ParamList)
-                        && n.text().contains_char('\n')
-                    {
-                        multiline_seq = true;
+                    if n.text().contains_char('\n') {
+                        match k {
+                            LuaSyntaxKind::TableArrayExpr | LuaSyntaxKind::TableObjectExpr | LuaSyntaxKind::TableEmptyExpr => ml_table = true,
+                            LuaSyntaxKind::CallArgList => ml_args = true,
+                            LuaSyntaxKind::ParamList => ml_params = true,
+                            _ => {}
+                        }
                     }
                 }
             }
         }
     }
-    if multiline_token {
-        return Some("relayout-only:input-has-multi-line-token");
+    if long_string {
+        return Some("relayout-only:input-has-multi-line-long-string");
     }
-    if multiline_seq {
-        return Some("relayout-only:input-has-multi-line-table-call-or-parameter-list");
+    if quoted_string {
+        return Some("relayout-only:input-has-quoted-string-continued-over-lines");
     }
+    if long_comment {
+        return Some("relayout-only:input-has-multi-line-long-comment");
+    }
+    if other_token {
+        return Some("relayout-only:input-has-other-multi-line-token");
+    }
+    if ml_table {
+        return Some("relayout-only:input-has-multi-line-table");
+    }
+    if ml_args {
+        return Some("relayout-only:input-has-multi-line-call-arguments");
+    }
+    // (a multi-line parameter list alone was never seen to fail: no finding, nothing suppressed)
+    let _ = ml_params;
     // a lone carriage return is a line break for the lexer but not for the layout rules (`contains('\n')`)
     if text.replace("\r\n", "").contains('\r') {
         return Some("relayout-only:input-has-lone-carriage-return");
     }
-    // a function body written on one line has to be broken by the first pass
-    let one_line_closure = root.descendants().any(|n| {
-        n.kind() == LuaKind::Syntax(LuaSyntaxKind::ClosureExpr)
-            && !n.text().contains_char('\n')
-            && n.children().any(|b| b.kind() == LuaKind::Syntax(LuaSyntaxKind::Block) && b.children().next().is_some())
-    });
-    if one_line_closure {
-        return Some("relayout-only:closure-body-written-on-one-line");
+    if cfg.layout.prefer_call_args_layout_from_source || cfg.layout.prefer_table_layout_from_source {
+        // these options ask for the layout of the source, which the first pass changes
+        return Some("relayout-only:prefer-layout-from-source-option");
     }
     {
         use emmylua_formatter::ExpandStrategy::Always;
@@ -580,9 +606,9 @@ pub fn classify6(text: &str, cfg: &LuaFormatConfig) -> Option<&'static str> {
     {
         return Some("relayout-only:line-width-limit-forces-line-breaks");
     }
-    if first.lines().any(|l| l.len() > cfg.layout.max_line_width) {
-        return Some("relayout-only:formatted-output-exceeds-line-width");
-    }
+    // (an over-long line left by the first pass alone was not seen to fail after fix d2ac096: no finding)
+    // (a function body written on one line inside call arguments needed two passes before fix d2ac096; the class
+    // has no failing member any more and is not a finding: 0 of 4082 members over three thorough seeds)
     None
 }
 
@@ -773,6 +799,13 @@ pub fn run(args: &Args, report: &mut Report) {
             let (f5, f6) = check_format(text, &cfg, report);
             if text.lines().count() >= 2 && seen.insert((i, ci)) {
                 report.distinct_nontrivial += 1;
+            }
+            // class membership is measured on every input in the thorough tier and on a quarter of them otherwise
+            if want6 && (args.thorough() || i % 4 == 0) {
+                match class6(text, &cfg, false) {
+                    Some(c) => report.count(&format!("members_of_class_{c}")),
+                    None => report.count("members_of_no_class"),
+                }
             }
             if let Some(what) = if want6 { f6 } else { f5 } {
                 report_failure(report, want6, name, text, cname, &cfg, what);
